@@ -15,7 +15,12 @@ MODEL = {
 IOPT = ('dict', 'Instance_options', {'NUMAGENTS': 'int', 'TWOPL': 'bool', 'PC': 'bool'})
 OPTIONS_PARSER = {'solver_options': ('dict', 'Solver_options', {'BRUTEFORCE': 'bool'}), 'instance_options': IOPT,
                   'extra_constraints': ('dict', 'Extra_constraints', {'STAB': 'bool'}), 'optimisation_options': ('list', 'crit')}
+# the argument record the generators receive (what Instance_options_parser.parse returns; its postconditions are the preconditions below)
+GENARGS = {'numberinstances': 'int', 'n1': 'int', 'n2': 'int', 'n3': 'int', 'minpreflistlength': 'int', 'maxpreflistlength': 'int',
+           'ties1': 'real', 'ties2': 'real', 'skew': 'real', 'twopl': 'bool', 'lowerquotas': 'int', 'upperquotas': 'int',
+           'lecturerlowerquotas': 'int', 'lecturertargets': 'int', 'lecturerupperquotas': 'int', 'outputdirectory': ('str', 'outdir')}
 CLASSES = {
+    'GenArgs': GENARGS, 'Generator_spa': {}, 'Generator_ha_sm_hr': {},
     'Options_parser': OPTIONS_PARSER,
     'Solver': {'options_parser': ('obj', 'Options_parser'), 'model': ('obj', 'Model')},
     'Model': MODEL,
